@@ -28,6 +28,7 @@ from ..alias import (
     pick_def,
     same_expr,
     stable_ref,
+    thorough_selftest,
     writes_of,
 )
 from ..core import AnalysisError, Report
@@ -589,4 +590,5 @@ def check(tier: str) -> Report:
             for n in ast.walk(f.node):
                 if isinstance(n, ast.Attribute) and isinstance(n.ctx, ast.Store) and n.attr == "write_mode":
                     rep.violation("C20.mode-table", f"{f.ref}::write_mode", "clear() changes the write mode", line=n.lineno)
+    thorough_selftest(rep)
     return rep
